@@ -6,6 +6,7 @@
   bytes — an arbitrary function here.
 -/
 import Hpfeeds.Model.Stores
+import Hpfeeds.Lemmas.StoresEnv
 import Hpfeeds.Legacy
 namespace Hpfeeds.C17
 open Hpfeeds Hpfeeds.Stores
@@ -123,6 +124,44 @@ theorem no_channels_no_grant (up : Bytes → Bytes) (env : Bytes → Option Byte
       simp only [mayPublish, maySubscribe]
       rcases hp with hp | hp <;> rcases hs with hs | hs <;> simp [hp, hs, e]
 
+/-- **the environment store, end to end.**  Write a user table into an environment the way an operator does
+    (`envOf`: HPFEEDS_<IDENT>_SECRET / _OWNER / _SUBCHANS / _PUBCHANS, channel lists joined with commas) — with
+    identities distinct after upper-casing, non-empty secrets, and channel names that are non-empty and contain
+    no comma — and EVERY look-up string that upper-cases like a configured identity gets back exactly that
+    identity's record: secret, owner, and both channel lists, element for element and in order (whatever else
+    the identities, secrets and names contain: quotes, underscores, `=`-free hostile text, other identities'
+    names as prefixes or suffixes) -/
+theorem env_configured (up : Bytes → Bytes) (t : Table) (i j : Bytes) (r : Rec)
+    (hnd : (t.map (fun e => up e.1)).Nodup) (h : (i, r) ∈ t) (hj : up j = up i)
+    (hsec : r.secret ≠ [])
+    (hsub : ∀ c ∈ r.subchans, c ≠ [] ∧ (44 : UInt8) ∉ c) (hpub : ∀ c ∈ r.pubchans, c ≠ [] ∧ (44 : UInt8) ∉ c) :
+    envLookup up (envOf up t) j = some r := by
+  have aS : IsAttr' SECRET := Or.inl rfl
+  have aO : IsAttr' OWNER := Or.inr (Or.inl rfl)
+  have aU : IsAttr' SUBCHANS := Or.inr (Or.inr (Or.inl rfl))
+  have aP : IsAttr' PUBCHANS := Or.inr (Or.inr (Or.inr rfl))
+  unfold envLookup
+  rw [envOf_hit up t i j r SECRET aS hnd h hj, envOf_hit up t i j r OWNER aO hnd h hj,
+    envOf_hit up t i j r SUBCHANS aU hnd h hj, envOf_hit up t i j r PUBCHANS aP hnd h hj]
+  have v1 : valOf r SECRET = r.secret := by simp [valOf]
+  have v2 : valOf r OWNER = r.owner := by simp [valOf, show OWNER ≠ SECRET by decide]
+  have v3 : valOf r SUBCHANS = joinComma r.subchans := by
+    simp [valOf, show SUBCHANS ≠ SECRET by decide, show SUBCHANS ≠ OWNER by decide]
+  have v4 : valOf r PUBCHANS = joinComma r.pubchans := by
+    simp [valOf, show PUBCHANS ≠ SECRET by decide, show PUBCHANS ≠ OWNER by decide, show PUBCHANS ≠ SUBCHANS by decide]
+  rw [v1, v2, v3, v4]
+  cases hs : r.secret with
+  | nil => exact absurd hs hsec
+  | cons b sec =>
+    simp only [Option.getD_some, split_join _ hsub, split_join _ hpub]
+    cases r; simp_all
+
+/-- … and a look-up string that upper-cases like NO configured identity gets nothing -/
+theorem env_unknown (up : Bytes → Bytes) (t : Table) (j : Bytes) (h : up j ∉ t.map (fun e => up e.1)) :
+    envLookup up (envOf up t) j = none := by
+  unfold envLookup
+  rw [envOf_miss up t j SECRET (Or.inl rfl) h]
+
 /-- the split never yields an empty channel name -/
 theorem split_no_empty (s : Bytes) : ([] : Bytes) ∉ splitComma s := by
   unfold splitComma; simp
@@ -147,5 +186,9 @@ example : tableLookup [([39, 59], ⟨[1], [2], [], []⟩), ([97], ⟨[3], [4], [
 example : tableLookup [([97], ⟨[3], [4], [[99]], []⟩)] [97, 0] = none := by decide
 example : splitComma [97, 44, 44, 98] = [[97], [98]] := by decide
 example : envKey id [88, 95, 79, 87, 78, 69, 82] SECRET ≠ envKey id [88] OWNER := by decide
+/-- `env_configured` is not vacuous: identities `a_b` and `a` (one a prefix of the other, with an underscore),
+    two channels -/
+example : envLookup id (envOf id [([97, 95, 98], ⟨[1], [2], [[99], [100, 101]], []⟩), ([97], ⟨[3], [4], [], [[102]]⟩)]) [97, 95, 98]
+    = some ⟨[1], [2], [[99], [100, 101]], []⟩ := by decide
 
 end Hpfeeds.C17
